@@ -1144,3 +1144,188 @@ def gen_loops():
 if __name__ == '__main__':
     t, d = gen_loops()
     print(t['PropsDefs'])
+
+
+# ------------------------------------------------------------------ GP._mutate / GP._cross: field writes on node objects
+def _hseq(items):
+    if not items:
+        return '.skip'
+    out = items[-1]
+    for i in reversed(items[:-1]):
+        out = f'(.seq {i} {out})'
+    return out
+
+
+def read_heap_block(stmts, nodes, flags):
+    """a block of field writes -> HStmt text (Model/Heap.lean); `nodes` / `flags`: names of node-valued / boolean locals"""
+    def ref(e):
+        if isinstance(e, ast.Name):
+            return f'(.var {lean_str(e.id)})'
+        if isinstance(e, ast.Attribute) and e.attr in ('left', 'right', 'parent'):
+            r = ref(e.value)
+            return f'(.{e.attr} {r})' if r else None
+        return None
+
+    def cond(e):
+        if isinstance(e, ast.Name):
+            if e.id in flags:
+                return f'(.flag {lean_str(e.id)})'
+            if e.id in nodes:
+                return f'(.isNode {lean_str(e.id)})'
+            return None
+        if isinstance(e, ast.Compare) and len(e.ops) == 1 and isinstance(e.ops[0], ast.IsNot) and ast.unparse(e.comparators[0]) == 'None' \
+                and isinstance(e.left, ast.Name) and e.left.id in nodes:
+            return f'(.isNode {lean_str(e.left.id)})'
+        if isinstance(e, ast.BoolOp) and isinstance(e.op, ast.And):
+            cs = [cond(v) for v in e.values]
+            if all(cs):
+                out = cs[-1]
+                for c in reversed(cs[:-1]):
+                    out = f'(.and {c} {out})'
+                return out
+        return None
+
+    def stmt(st):
+        if isinstance(st, ast.Assign) and len(st.targets) == 1:
+            t, v = st.targets[0], st.value
+            if isinstance(t, ast.Name) and ref(v) and not isinstance(v, ast.Name):
+                nodes.add(t.id)
+                return f'(.assign {lean_str(t.id)} {ref(v)})'
+            if isinstance(t, ast.Attribute) and t.attr in ('left', 'right', 'parent') and ref(t.value) and ref(v):
+                return f'(.set{t.attr.capitalize()} {ref(t.value)} {ref(v)})'
+            if isinstance(t, ast.Attribute) and t.attr == 'flag' and ref(t.value) and isinstance(v, ast.Constant) and isinstance(v.value, bool):
+                return f'(.setFlag {ref(t.value)} {"true" if v.value else "false"})'
+        if isinstance(st, ast.If):
+            c = cond(st.test)
+            if c:
+                return f'(.ite {c} {block(st.body)} {block(st.orelse)})'
+        if isinstance(st, ast.Pass):
+            return '.skip'
+        return f'(.unknown {lean_str(ast.unparse(st)[:50])})'
+
+    def block(sts):
+        return _hseq([stmt(s) for s in sts if not (isinstance(s, ast.Expr) and isinstance(s.value, ast.Constant))])
+    return block(stmts), cond
+
+
+def _norm(s):
+    return ' '.join(ast.unparse(s).split())
+
+
+def read_mutate(fn):
+    b = lambda v: 'true' if v else 'false'
+    F = dict(copiesDeep=False, pointUniform2Max=False, findsOnCopy=False, cond='(.flag "?")', growsBranch=False, elseGrowsWhole=False,
+             returnsCopy=False, extraStmts=0)
+    body = '(.unknown "method missing")'
+    if fn is not None and len(fn.args.args) == 4:
+        _, space, tree, maxn = [a.arg for a in fn.args.args]
+        copy_, point, sub, flag = None, None, None, None
+        for st in body_of(fn):
+            u = _norm(st)
+            if isinstance(st, ast.Assign) and len(st.targets) == 1 and isinstance(st.targets[0], ast.Name) and u.endswith(f'= copy.deepcopy({tree})') and copy_ is None:
+                copy_ = st.targets[0].id
+                F['copiesDeep'] = True
+            elif isinstance(st, ast.Assign) and len(st.targets) == 1 and isinstance(st.targets[0], ast.Name) \
+                    and _norm(st.value) == f'int(r.generate_uniform_random_number(2, {maxn})[0])' and point is None:
+                point = st.targets[0].id
+                F['pointUniform2Max'] = True
+            elif isinstance(st, ast.Assign) and len(st.targets) == 1 and isinstance(st.targets[0], ast.Tuple) and len(st.targets[0].elts) == 2 \
+                    and all(isinstance(e, ast.Name) for e in st.targets[0].elts) and copy_ and point \
+                    and _norm(st.value) == f'{copy_}.find_node({point})' and sub is None:
+                sub, flag = [e.id for e in st.targets[0].elts]
+                F['findsOnCopy'] = True
+            elif isinstance(st, ast.If) and sub and body.startswith('(.unknown "method'):
+                sts = [s for s in st.body if not (isinstance(s, ast.Expr) and isinstance(s.value, ast.Constant))]
+                grow = f'{space}.grow({space}.min_depth, {space}.max_depth)'
+                branch = None
+                if sts and isinstance(sts[0], ast.Assign) and len(sts[0].targets) == 1 and isinstance(sts[0].targets[0], ast.Name) \
+                        and _norm(sts[0].value) == grow:
+                    branch = sts[0].targets[0].id
+                    F['growsBranch'] = True
+                    sts = sts[1:]
+                body, cond = read_heap_block(sts, {sub} | ({branch} if branch else set()), {flag})
+                F['cond'] = cond(st.test) or '(.flag "?")'
+                els = [s for s in st.orelse if not (isinstance(s, ast.Expr) and isinstance(s.value, ast.Constant))]
+                F['elseGrowsWhole'] = len(els) == 1 and _norm(els[0]) == f'{copy_} = {grow}'
+            elif isinstance(st, ast.Return) and copy_ and _norm(st) == f'return {copy_}':
+                F['returnsCopy'] = True
+            else:
+                F['extraStmts'] += 1
+    else:
+        F['extraStmts'] = 1
+    return body, '{ ' + ', '.join(f'{k} := {b(v) if isinstance(v, bool) else v}' for k, v in F.items()) + ' }'
+
+
+def read_cross(fn):
+    b = lambda v: 'true' if v else 'false'
+    F = dict(copiesFatherDeep=False, copiesMotherDeep=False, fatherPointUniform2Max=False, motherPointUniform2Max=False, findsOnCopies=False,
+             cond='(.flag "?")', elseNothing=False, returnsCopies=False, extraStmts=0)
+    body = '(.unknown "method missing")'
+    if fn is not None and len(fn.args.args) == 5:
+        _, father, mother, maxf, maxm = [a.arg for a in fn.args.args]
+        cp, pt, sub, flg = {}, {}, {}, {}
+        finds = 0
+        for st in body_of(fn):
+            u = _norm(st)
+            done = False
+            if isinstance(st, ast.Assign) and len(st.targets) == 1 and isinstance(st.targets[0], ast.Name):
+                for who, src, mx in (('f', father, maxf), ('m', mother, maxm)):
+                    if _norm(st.value) == f'copy.deepcopy({src})' and who not in cp:
+                        cp[who] = st.targets[0].id
+                        F['copiesFatherDeep' if who == 'f' else 'copiesMotherDeep'] = True
+                        done = True
+                    elif _norm(st.value) == f'int(r.generate_uniform_random_number(2, {mx})[0])' and who not in pt:
+                        pt[who] = st.targets[0].id
+                        F['fatherPointUniform2Max' if who == 'f' else 'motherPointUniform2Max'] = True
+                        done = True
+            if not done and isinstance(st, ast.Assign) and len(st.targets) == 1 and isinstance(st.targets[0], ast.Tuple) \
+                    and len(st.targets[0].elts) == 2 and all(isinstance(e, ast.Name) for e in st.targets[0].elts):
+                for who in ('f', 'm'):
+                    if who in cp and who in pt and who not in sub and _norm(st.value) == f'{cp[who]}.find_node({pt[who]})':
+                        sub[who], flg[who] = [e.id for e in st.targets[0].elts]
+                        finds += 1
+                        done = True
+            if done:
+                continue
+            if isinstance(st, ast.If) and len(sub) == 2 and body.startswith('(.unknown "method'):
+                body, cond = read_heap_block(list(st.body), set(sub.values()), set(flg.values()))
+                F['cond'] = cond(st.test) or '(.flag "?")'
+                F['elseNothing'] = not st.orelse
+            elif isinstance(st, ast.Return) and len(cp) == 2 and _norm(st) in (f'return ({cp["f"]}, {cp["m"]})', f'return {cp["f"]}, {cp["m"]}'):
+                F['returnsCopies'] = True
+            else:
+                F['extraStmts'] += 1
+        F['findsOnCopies'] = finds == 2
+    else:
+        F['extraStmts'] = 1
+    return body, '{ ' + ', '.join(f'{k} := {b(v) if isinstance(v, bool) else v}' for k, v in F.items()) + ' }'
+
+
+_old_gen_loops9 = gen_loops
+
+
+def gen_loops():
+    texts, data = _old_gen_loops9()
+    gp = f'{REPO}/opytimizer/optimizers/gp.py'
+    mb, mf = read_mutate(find_method(gp, 'GP', '_mutate'))
+    cb, cf = read_cross(find_method(gp, 'GP', '_cross'))
+    texts['HeapOpsDefs'] = '\n'.join(['-- GENERATED by harness/translate_loops.py from GP._mutate / GP._cross. Do not edit.',
+                                      'import OpyVerif.Model.Heap', 'namespace Opy.Gen', 'open Opy', '',
+                                      f'def mutateBody : HStmt := {mb}', f'def mutFrame : MutFrame := {mf}',
+                                      f'def crossBody : HStmt := {cb}', f'def crossFrame : CrossFrame := {cf}', '', 'end Opy.Gen', ''])
+    texts['HeapOps'] = '\n'.join(['-- GENERATED by harness/translate_loops.py: obligations re-decided on every build. Do not edit.',
+                                  'import OpyVerif.Generated.HeapOpsDefs', 'namespace Opy.Gen', 'open Opy',
+                                  '/-- the field writes of `GP._mutate` read as the program `Proofs/Heap.mutate_on_heap` is about -/',
+                                  'theorem mutateBody_eq : mutateBody = Expected.mutateBody := by decide +kernel',
+                                  'theorem mutFrame_eq : mutFrame = Expected.mutFrame := by decide +kernel',
+                                  '/-- the field writes of `GP._cross` read as the program `Proofs/Heap.cross_on_heap` is about -/',
+                                  'theorem crossBody_eq : crossBody = Expected.crossBody := by decide +kernel',
+                                  'theorem crossFrame_eq : crossFrame = Expected.crossFrame := by decide +kernel',
+                                  'end Opy.Gen', ''])
+    data['heap_ops'] = dict(mutate=mb, cross=cb)
+    return texts, data
+
+
+if __name__ == '__main__':
+    t, d = gen_loops()
+    print(t['HeapOpsDefs'])
